@@ -14,7 +14,7 @@ import (
 // modules". A generated single-file program (functions with loops, slices, strings, multi-returns, multi-assignments)
 // is split: a call-closed set of functions that touch no global moves into an imported file (public names, reached
 // through the alias); the reference semantics of the ORIGINAL program decide the output of the split program.
-var c09SplitCfg = gen.Cfg{MaxStmts: 22, MaxDepth: 3, ExprDepth: 3, Funcs: true, MaxFuncs: 5, Slices: true, StrOps: true, LoopBudget: 10, DumpGlobal: true, ErrSpell: true, BigSlices: true, CmdNeutral: true, BareExpr: true}
+var c09SplitCfg = gen.Cfg{MaxStmts: 22, MaxDepth: 3, ExprDepth: 3, Funcs: true, MaxFuncs: 5, Slices: true, StrOps: true, LoopBudget: 10, DumpGlobal: true, ErrSpell: true, BigSlices: true, CmdNeutral: true, BareExpr: true, Panics: true}
 
 type c09SplitProg struct {
 	prog        *ts.Program
